@@ -221,24 +221,39 @@ def definitions(draw):
 
 # -- the check ---------------------------------------------------------------
 
-def flow_text(case, extra_runtime=()):
-    customs = case['customs']
+def _flow_parts(case, tname, extra_runtime=()):
+    graph = []
+    if not case['decl']:
+        graph.append(tname)   # success required (the default)
+    graph += cexpr.graph_lines(tname, case['decl'], sink=f'd_{tname}_')
+    rt = [f'    [[{tname}]]']
+    if case.get('expr') is not None:
+        rt.append('        completion = '
+                  + cexpr.render(case['expr'], case.get('style', 0)))
+    rt += ['        ' + ln for ln in extra_runtime]
+    if case['customs']:
+        rt.append('        [[[outputs]]]')
+        for name, msg in case['customs']:
+            rt.append(f'            {name} = "{msg}"')
+    return graph, rt
+
+
+def flow_text_multi(cases, extra_runtime=()):
+    """One workflow with task t<i> per case (a single case: task `t`)."""
     lines = ['[scheduler]', '    allow implicit tasks = True',
              '[scheduling]', '    [[graph]]', '        R1 = """']
-    if not case['decl']:
-        lines.append('            t')   # success required (the default)
-    for ln in cexpr.graph_lines('t', case['decl']):
-        lines.append('            ' + ln)
-    lines += ['        """', '[runtime]', '    [[t]]']
-    if case.get('expr') is not None:
-        lines.append('        completion = '
-                     + cexpr.render(case['expr'], case.get('style', 0)))
-    lines += ['        ' + ln for ln in extra_runtime]
-    if customs:
-        lines.append('        [[[outputs]]]')
-        for name, msg in customs:
-            lines.append(f'            {name} = "{msg}"')
+    runtime = []
+    for i, case in enumerate(cases):
+        tname = 't' if len(cases) == 1 else f't{i}'
+        graph, rt = _flow_parts(case, tname, extra_runtime)
+        lines += ['            ' + ln for ln in graph]
+        runtime += rt
+    lines += ['        """', '[runtime]'] + runtime
     return '\n'.join(lines) + '\n'
+
+
+def flow_text(case, extra_runtime=()):
+    return flow_text_multi([case], extra_runtime)
 
 
 def _is_identifier(cv):
@@ -254,7 +269,7 @@ def _last_wins(done, outputs):
     return {o for o in outputs if state[compvar(o)]}
 
 
-def check_case(case, ctx: Ctx) -> CaseResult:
+def check_case(case, ctx: Ctx, tdef=None) -> CaseResult:
     from cylc.flow.exceptions import CylcError
     from cylc.flow.parsec.exceptions import ParsecError
     from cylc.flow.task_outputs import TaskOutputs
@@ -294,6 +309,8 @@ def check_case(case, ctx: Ctx) -> CaseResult:
         classes.append('custom-required')
 
     viol = []
+    if tdef is not None:
+        return _evaluate(case, ctx, tdef, classes, nontrivial)
     try:
         cfg = load_config(flow_text(case), ctx.scratch)
     except (CylcError, ParsecError) as exc:
@@ -311,7 +328,20 @@ def check_case(case, ctx: Ctx) -> CaseResult:
                        f'{type(exc).__name__}: {exc} while loading\n'
                        + flow_text(case))],
             nontrivial=False, classes=classes)
-    tdef = cfg.taskdefs['t']
+    return _evaluate(case, ctx, cfg.taskdefs['t'], classes, nontrivial)
+
+
+def _evaluate(case, ctx, tdef, classes, nontrivial):
+    from cylc.flow.task_outputs import TaskOutputs
+    customs = [list(c) for c in case['customs']]
+    decl = dict(case['decl'])
+    tree = case.get('expr')
+    names = [n for n, _ in customs]
+    outputs = list(STD_OUTPUTS) + names
+    msg_of = {o: o for o in STD_OUTPUTS}
+    msg_of.update({n: m for n, m in customs})
+    collide = 'compvar-collision' in classes
+    viol = []
 
     # guard: the graph parser applied the declaration we think it did
     eff = dict(decl)
@@ -407,18 +437,29 @@ def check_case(case, ctx: Ctx) -> CaseResult:
     return CaseResult(viol, nontrivial=nontrivial, classes=classes)
 
 
+BATCH = 12
+
+
 def run_shard(ctx: Ctx):
-    # Part A: exhaustive
+    from vf.cylcutil import load_config
+    # Part A: exhaustive; several definitions share one workflow (task t<i>
+    # each) to amortise the load; a replay uses a workflow of its own
     kmax = 2 if ctx.quick else 3
-    total = 0
-    for i, case in enumerate(enum_definitions(kmax)):
-        if i % ctx.nshards != ctx.shard:
-            continue
-        total += 1
-        res = check_case(case, ctx)
-        ctx.col.record(case, res)
-        for v in ctx.col.filter_known(res.violations):
-            ctx.col.add_violation(v, case)
-    ctx.col.extra['exhaustive_definitions'] = total
+    mine = [case for i, case in enumerate(enum_definitions(kmax))
+            if i % ctx.nshards == ctx.shard]
+    for pos in range(0, len(mine), BATCH):
+        batch = mine[pos:pos + BATCH]
+        try:
+            cfg = load_config(flow_text_multi(batch), ctx.scratch)
+            tdefs = [cfg.taskdefs['t' if len(batch) == 1 else f't{i}']
+                     for i in range(len(batch))]
+        except Exception:  # noqa  -> decide per definition
+            tdefs = [None] * len(batch)
+        for case, tdef in zip(batch, tdefs):
+            res = check_case(case, ctx, tdef)
+            ctx.col.record(case, res)
+            for v in ctx.col.filter_known(res.violations):
+                ctx.col.add_violation(v, case)
+    ctx.col.extra['exhaustive_definitions'] = len(mine)
     # Part B: Hypothesis
     hyp_run(ctx, definitions(), check_case, ctx.share(BUDGET[ctx.tier]))
